@@ -92,6 +92,11 @@ CHECKS = {
             "For every (sketch, tape) pair the trace must show one digitalRead per button per pass plus the initial sample, on_click markers exactly at released->pressed transitions of the sampled signal, every is_pressed() equal to the pass's sample, click counts equal to the host Button's, one analogRead per pot.read() with that value, and for ultrasonic calls the distance formula, <=3 attempts, the last-good/400 fallback and >=60 ms between triggers.",
             "Virtual clock owned by the harness; millis() rollover cannot be observed on a 64-bit host; loop-declared buttons are a recorded finding.",
             "DESIGN.md 3/C15"),
+    "C16": ("exploration",
+            "generated buzzer call histories (literal and tape-derived arguments from negative/zero/fractional/typical/large values) run with several tapes under ASan+UBSan; protocol reference model written from the property statement evaluated between per-call markers",
+            "Each history is compiled once and run with several tapes; between per-call markers the TONE/NOTONE/DELAY events of the buzzer pin and the printed getter values must satisfy the protocol model: no tone for f <= 0, silence and get_state() false after every call with a duration, exact beep counts and gaps, sweep slot count/monotonicity/end points/total delay, melody order/count/rests/durations with default tempo for tempo <= 0, bounded delays, and get_frequency/get_last_frequency tracking.",
+            "Score notes are copied from the emitter table (consistency only); tone() hardware limits not modelled.",
+            "DESIGN.md 3/C16"),
 }
 
 PENDING = {}
